@@ -10,6 +10,35 @@ use std::collections::HashMap;
 use std::rc::Rc;
 use target_scheme::TargetScheme;
 
+/// Escape `text` for use between the double quotes of a Scheme string literal, so that the reader
+/// gives back exactly `text` whatever characters it contains.
+pub(crate) fn string_escape(text: &str) -> String {
+    let mut out = String::new();
+    for c in text.chars() {
+        if c == '"' || c == '\\' {
+            out.push('\\');
+        }
+        out.push(c);
+    }
+    out
+}
+
+/// Same as [string_escape] for text that is part of a `format` template: a tilde is doubled so
+/// that it is printed verbatim instead of starting a directive.
+pub(crate) fn template_escape(text: &str) -> String {
+    let mut out = String::new();
+    for c in text.chars() {
+        if c == '"' || c == '\\' {
+            out.push('\\');
+        }
+        if c == '~' {
+            out.push('~');
+        }
+        out.push(c);
+    }
+    out
+}
+
 /// Information collected about the compilation
 pub struct CompiledExpression {
     policy_body: String,
@@ -74,7 +103,7 @@ pub fn compile(
 
 impl CompiledExpression {
     pub fn scheme<S: AsRef<str>>(&self, mdt: S) -> String {
-        let mdt = mdt.as_ref();
+        let mdt = string_escape(mdt.as_ref());
         format!(
             "(use-modules (lipe) (lipe find){})
 
